@@ -377,13 +377,12 @@ def intersect_masks(input_masks, output_filename=None, threshold=0.5, cc=True):
         if isinstance(this_mask, str):
             # We have a filename
             this_mask = load(this_mask).get_fdata()
+        # A voxel is in a mask where the mask is non-zero: count memberships,
+        # so that neither the values nor the order of the masks matter.
+        this_mask = np.asarray(this_mask) != 0
         if grp_mask is None:
-            grp_mask = this_mask.copy().astype(np.int_)
+            grp_mask = this_mask.astype(np.int_)
         else:
-            # If this_mask is floating point and grp_mask is integer, numpy 2
-            # casting rules raise an error for in-place addition.
-            # Hence we do it long-hand.
-            # XXX should the masks be coerced to int before addition?
             grp_mask = grp_mask + this_mask
 
     grp_mask = grp_mask > (threshold * len(list(input_masks)))
